@@ -27,6 +27,11 @@ let string_of_coq (s : string) : String.t =
   in
   go s; Buffer.contents b
 
+(* The extracted models recurse tens of thousands of frames deep (65535-byte payloads) while
+   allocating; every minor collection scans the whole stack. A larger minor heap keeps the
+   number of collections (and with it the running time) independent of the code layout. *)
+let () = Gc.set { (Gc.get ()) with Gc.minor_heap_size = 8 * 1024 * 1024 }
+
 let () =
   try
     while true do
